@@ -51,4 +51,48 @@ Proof.
   - apply (lexo_parse T HT _ (tp ++ TOp OLp :: tw ++ TOp ORp :: tq));
       [destruct p; discriminate|apply lexo_wrapped; assumption|apply parse_sound_complete; exact P2].
 Qed.
+(* an operand preceded by a space or "(" and followed by nothing, a space or ")" reads as a unit *)
+Lemma reads_as_unit p' c1 w q tp tw tq :
+  (c1 = " "%char \/ c1 = "("%char) -> (forall r, w <> "+"%char :: r) ->
+  (q = [] \/ exists c q', q = c :: q' /\ (c = " "%char \/ c = ")"%char)) ->
+  lexo T (p' ++ [c1]) = Some tp -> lexo T w = Some tw -> lexo T q = Some tq ->
+  lexo T ((p' ++ [c1]) ++ w ++ q) = Some (tp ++ tw ++ tq).
+Proof.
+  intros Hc Hw Hq Hp Lw Lq.
+  assert (B1 : boundary p' c1) by (destruct Hc as [-> | ->]; apply boundary_clean; [reflexivity|discriminate|reflexivity|discriminate]).
+  assert (Hwq : lexo T (w ++ q) = Some (tw ++ tq)).
+  { destruct Hq as [-> | [c [q' [-> Hcq]]]].
+    - rewrite app_nil_r, Lw. unfold lexo in Lq. cbn in Lq. inversion Lq. rewrite app_nil_r. reflexivity.
+    - assert (B2 : boundary w c) by (destruct Hcq as [-> | ->]; apply boundary_clean; [reflexivity|discriminate|reflexivity|discriminate]).
+      rewrite (lexo_app T HT w c q' B2), Lw, Lq. reflexivity. }
+  assert (Hwq' : forall r, w ++ q <> "+"%char :: r).
+  { intros r E. destruct w as [|x w']; [|inversion E; subst; exact (Hw w' eq_refl)].
+    unfold lexo in Lw. cbn in Lw. cbn in E.
+    destruct Hq as [-> | [c [q' [-> [-> | ->]]]]]; discriminate. }
+  rewrite <- app_assoc. cbn [app].
+  rewrite (lexo_app T HT p' c1 (w ++ q) B1).
+  rewrite (lexo_app T HT p' c1 [] B1) in Hp.
+  destruct (lexo T p') as [t1|]; [|discriminate]. cbn [option_map] in *.
+  destruct Hc as [-> | ->].
+  - rewrite (lexo_space_then T HT (w ++ q) Hwq'), Hwq. cbn [option_map].
+    rewrite (lexo_space_then T HT []) in Hp by (intros r E; discriminate). cbn in Hp. inversion Hp; subst.
+    rewrite app_nil_r. reflexivity.
+  - rewrite (lexo_lp T HT), Hwq. cbn [option_map].
+    rewrite (lexo_lp T HT) in Hp. cbn in Hp. inversion Hp; subst. rewrite <- app_assoc. reflexivity.
+Qed.
+
+(* ... so for an operand delimited that way no tokenisation hypothesis about the whole text is left *)
+Theorem parens_redundant_delimited p' c1 w q tp tw tq z t a :
+  (c1 = " "%char \/ c1 = "("%char) -> (forall r, w <> "+"%char :: r) ->
+  (q = [] \/ exists c q', q = c :: q' /\ (c = " "%char \/ c = ")"%char)) ->
+  lexo T (p' ++ [c1]) = Some tp -> lexo T w = Some tw -> lexo T q = Some tq ->
+  forallb (fun tk => negb (is_marker z tk)) tp = true -> forallb (fun tk => negb (is_marker z tk)) tq = true ->
+  p_tokens (tp ++ TRef z :: tq) = Ok t -> nodoc z t = true -> d_atom tw a -> w <> [] ->
+  parse T ((p' ++ [c1]) ++ w ++ q) = Ok (nsubst z a t) /\
+  parse T ((p' ++ [c1]) ++ "("%char :: w ++ ")"%char :: q) = Ok (nsubst z a t).
+Proof.
+  intros Hc Hw Hq Lp Lw Lq Fp Fq HC Hn Ha Hne.
+  apply (parens_redundant_text (p' ++ [c1]) w q tp tw tq z t a); try assumption.
+  apply reads_as_unit; assumption.
+Qed.
 End SubstTextT.
